@@ -412,7 +412,11 @@ def oracle(spec, m, objs=None, mode="total", unknown_vars=()):
         if d["kind"] == "sub":
             base[d["var"]["name"]] = d["var"]
     unknown = set(unknown_vars)
-    kle = mode == "kleene"
+    kle = mode in ("kleene", "nothing")
+    # mode="nothing": like kleene, but an atom about a variable without values produces NO result instead of an unknown
+    # one, and the operators treat "no result" as krrood's operators do: a conjunction stops there, a disjunction lets
+    # its right side decide, a negation has nothing to negate
+    nothing = mode == "nothing"
 
     def rng_of(name, A):
         if name in derived:
@@ -459,6 +463,13 @@ def oracle(spec, m, objs=None, mode="total", unknown_vars=()):
 
     def ec(c, A):
         k = c[0]
+        s_local = term_local.get(id(c))
+        if s_local is not None and s_local not in A:
+            # a nested sub-query used as a term of this one atom: the atom holds iff an answer of the sub-query makes it
+            # hold (a sub-query without answers: it does not hold - and the operators around it go on from there)
+            if kle and mentions_unknown({s_local}, A):
+                return None
+            return any(ec(c, {**A, s_local: val}) is True for val in rng_of(s_local, A))
         if k == "cmp":
             if kle and mentions_unknown(term_vars(c[2]) | term_vars(c[3]), A):
                 return None
@@ -483,6 +494,12 @@ def oracle(spec, m, objs=None, mode="total", unknown_vars=()):
             if kle and mentions_unknown(term_vars(c[1]), A):
                 return None
             return isinstance(et(c[1], A), getattr(m, c[2]))
+        if k == "and" and nothing:
+            l = ec(c[1], A)
+            return l if l is not True else ec(c[2], A)
+        if k == "or" and nothing:
+            l = ec(c[1], A)
+            return True if l is True else ec(c[2], A)
         if k == "and":
             l = ec(c[1], A)
             if l is False:
@@ -583,9 +600,29 @@ def oracle(spec, m, objs=None, mode="total", unknown_vars=()):
             return outer_of(c[1])
         return closure_vars(cond_vars(c), spec)
 
+    # nested sub-queries that are a term of exactly one atom and are not selected (see ec)
+    term_local = {}
+
+    def atoms_of(c):
+        if c[0] in ("and", "or"):
+            return atoms_of(c[1]) + atoms_of(c[2])
+        if c[0] == "not":
+            return atoms_of(c[1])
+        if c[0] in ("exists", "forall"):
+            return atoms_of(c[2])
+        return [c]
+
+    if spec.get("cond"):
+        for d in spec.get("derived", []):
+            if d["kind"] == "sub" and d["name"] not in outer_names:
+                mentioning = [a for a in atoms_of(spec["cond"]) if d["name"] in cond_vars(a)]
+                if len(mentioning) == 1:
+                    term_local[id(mentioning[0])] = d["name"]
+
     if spec.get("cond"):
         count_occ(spec["cond"], [])
         outer_names |= outer_of(spec["cond"])
+    outer_names -= set(term_local.values())
     # sub-query inner variables are never outer
     for d in spec.get("derived", []):
         if d["kind"] == "sub":
